@@ -9,16 +9,16 @@ mkdir -p /tmp/seedchk
 if [ ! -d "$WT" ]; then git -C /repo worktree add -q --detach "$WT" HEAD || exit 2; fi
 cd "$WT" || exit 2
 git checkout -q --detach "$(git -C /repo rev-parse HEAD)" 2>/dev/null
-git checkout -q -- . ; rm -f tests/seeded_demo.rs
-if ! git apply --3way "$SRC/patch.diff" 2>/tmp/seedchk/apply.err; then
-  if ! git apply "$SRC/patch.diff" 2>>/tmp/seedchk/apply.err; then echo "$NAME: PATCH DOES NOT APPLY"; cat /tmp/seedchk/apply.err | head -5; git checkout -q -- .; exit 1; fi
+git reset -q --hard HEAD; rm -f tests/seeded_demo.rs
+if ! git apply "$SRC/patch.diff" 2>/tmp/seedchk/apply.err; then
+  if ! git apply --3way "$SRC/patch.diff" 2>>/tmp/seedchk/apply.err; then echo "$NAME: PATCH DOES NOT APPLY"; head -3 /tmp/seedchk/apply.err; git reset -q --hard HEAD; exit 1; fi
 fi
 git diff HEAD -- src > /tmp/seedchk/rebased.diff
 git reset -q
 SUITE=$(cargo nextest run --workspace --no-fail-fast --test-threads 8 --offline 2>&1 | grep -E "Summary" | tail -1)
 cp "$SRC/demo.rs" tests/seeded_demo.rs
 DEMO_WITH=$(cargo test --offline --test seeded_demo 2>&1 | grep -E "^test result|error(\[|:)" | head -3 | tr '\n' ' ')
-git checkout -q -- src
+git reset -q --hard HEAD
 DEMO_WITHOUT=$(cargo test --offline --test seeded_demo 2>&1 | grep -E "^test result|error(\[|:)" | head -3 | tr '\n' ' ')
 rm -f tests/seeded_demo.rs
 echo "$NAME: suite[$SUITE] demo_with_patch[$DEMO_WITH] demo_without[$DEMO_WITHOUT]"
